@@ -136,8 +136,15 @@ func intIntMap(m []refcodec.RefIntPair) *hmap.IntIntMap {
 // toCounter: acts is a short array hung on some meters — the layout has no place for it, so
 // it must not change a byte.
 func toCounter(p *refcodec.RefCounterPack, acts []int16) pack.Pack {
-	g := pack.NewCounterPack1()
+	return fillCounter(pack.NewCounterPack1(), p, acts)
+}
+
+// fillCounter assigns every exported field of an existing counter pack from the neutral
+// struct (sections the struct does not have are set to nil).
+func fillCounter(g *pack.CounterPack1, p *refcodec.RefCounterPack, acts []int16) *pack.CounterPack1 {
 	setHeader(&g.AbstractPack, p.RefHeader)
+	g.DbNumActive, g.DbNumIdle, g.Netstat, g.Websocket, g.Extra = nil, nil, nil, nil, nil
+	g.TxcallerOidMeter, g.SqlMeter, g.HttpcMeter, g.TxcallerGroupMeter, g.TxcallerUnknown, g.TxcallerPOidMeter = nil, nil, nil, nil, nil, nil
 	g.Duration, g.Cputime = p.Duration, p.Cputime
 	g.HeapTot, g.HeapUse, g.HeapPerm, g.HeapPendingFinalization = p.HeapTot, p.HeapUse, p.HeapPerm, p.HeapPendingFinalization
 	g.GcCount, g.GcTime = p.GcCount, p.GcTime
